@@ -599,7 +599,11 @@ def procStep (st0 : ProcEng) (t : Tokens) (impl : Option String) : ProcEng × St
         (if (kvGet (tokenize line) "early") == some "1" then ["C11 shutdown: the final flush started before the processor loop had stopped (it was still aggregating a transaction)"] else [])
       else []
     let f6 := match kvGet (tokenize line) "changed" with
-      | some c => [s!"C01 proc: the {c} container handed to a request changed while the request was in flight (the live harvest and the detached one share state)"]
+      | some c =>
+        if c.endsWith ":body" then
+          [s!"C04 proc: the body of a {c} request changed after it was built and before it was sent: another request's data was written into the same buffer",
+           s!"C01 proc: the body of a {c} request changed after it was built and before it was sent"]
+        else [s!"C01 proc: the {c} container handed to a request changed while the request was in flight (the live harvest and the detached one share state)"]
       | none => []
     let f5 := f6 ++ match (kvGet (tokenize line) "badjson").bind String.toNat? with
       | some n => if n > 0 then ["C08 payload: a request body sent to the collector is not valid JSON"] else []
